@@ -649,6 +649,25 @@ def wrapper(ctx, obs, rule='FWD'):
     for c in c2:
         ok = len(c.args) >= 2 and all(isinstance(a, ast.Call) and _leaf(a.func) == 'ensure_double' for a in c.args[:2])
         obs.check(ok, rule, q2, 'both measurement arrays are converted to float64', f'`{norm(c)[:80]}`', '', where(prog, f2, c))
+    # the compiled kernels take their branch from the noise / prior arguments (None -> euclidean path with per-pair channel
+    # counts): what reaches them is what the caller passed, not a substitute filled in on the way (`noise = np.eye(n)` selects the
+    # precision-matrix path, whose weights and buffers ignore missing channels)
+    for qq, callee in ((W + 'calc_rdm_unbalanced', 'calc'), (W + 'calc_one_similarity', 'calc_one')):
+        ff = prog.func(qq)
+        rr = ctx.dep.result(qq)
+        for c in [x for x in ast.walk(ff.node) if isinstance(x, ast.Call) and _leaf(x.func) == callee]:
+            for a in list(c.args) + [k.value for k in c.keywords]:
+                if isinstance(a, ast.Name) and a.id in ('noise', 'prior_lambda', 'prior_weight') and a.id in ff.params:
+                    ids = rr.load_defs.get(id(a), frozenset())
+                    pdef = {i for i in ids if rr.defs[i].kind == 'param'}
+                    con = f'`{a.id}` reaches the compiled `{callee}` as the caller passed it'
+                    if ids and ids == pdef:
+                        obs.ok(rule, qq, con, '', where(prog, ff, c))
+                    elif ids:
+                        d = next(rr.defs[i] for i in ids if i not in pdef)
+                        obs.bad(rule, qq, con, f'`{norm(d.node)[:70]}` replaces the caller\'s `{a.id}` on some path before the call: the compiled '
+                                f'routine then runs the branch for the substitute (e.g. the precision-matrix path instead of the '
+                                f'euclidean one, which handles missing channels differently)', where(prog, ff, d.node))
     q3 = W + 'ensure_double'
     f3 = prog.func(q3)
     ok = any(isinstance(c, ast.Call) and _leaf(c.func) in ('astype', 'asarray', 'array', 'ascontiguousarray') and 'float64' in norm(c)
